@@ -10,6 +10,9 @@ with the models is the job of the multi-configuration replay in props/C19.py.
 import Bee2V.C01.PropsLcl
 import Bee2V.C03.Props
 import Bee2V.C14.PropsCmp
+import Bee2V.C05.PropsAdd
+import Bee2V.C05.PropsMul
+import Bee2V.C05.PropsDiv
 
 namespace Bee2V.C19
 
@@ -38,5 +41,43 @@ theorem memEq_edition_independent (O : Nat) (hO : 0 < O) (a b : List Bee2V.C14.C
     (h : a.length = b.length) :
     Bee2V.C14.Cmp.memEq_safe O hO a b = Bee2V.C14.Cmp.memEq_fast a b :=
   Bee2V.C14.memEq_safe_eq_fast O hO a b h
+
+/-! ### big-integer layer: the value computed does not depend on the word size or the edition
+
+`val w a` is the number a little-endian list of `w`-bit words represents.  The code-shaped models of
+C05 are generic in `w`; their `= specification` theorems give: two builds with different word sizes,
+fed word arrays that represent the same numbers, return word arrays that represent the same number. -/
+
+open Bee2V.C05 in
+/-- `zzMul`: 64-bit-word and 32-bit-word (any two word sizes) builds compute the same product. -/
+theorem zzMul_word_size_independent (w1 w2 : Nat) (a1 b1 a2 b2 : List Nat)
+    (ha1 : Wf w1 a1) (hb1 : Wf w1 b1) (ha2 : Wf w2 a2) (hb2 : Wf w2 b2)
+    (ha : val w1 a1 = val w2 a2) (hb : val w1 b1 = val w2 b2) :
+    val w1 (zzMul w1 a1 b1) = val w2 (zzMul w2 a2 b2) := by
+  rw [(zzMul_spec w1 a1 b1 ha1 hb1).1, (zzMul_spec w2 a2 b2 ha2 hb2).1, ha, hb]
+
+open Bee2V.C05 in
+/-- `zzMod` (Knuth D with its normalisation, trial quotient and add-back): same remainder for any
+two word sizes. -/
+theorem zzMod_word_size_independent (w1 w2 : Nat) (a1 b1 a2 b2 : List Nat)
+    (ha1 : Wf w1 a1) (hb1 : Wf w1 b1) (ha2 : Wf w2 a2) (hb2 : Wf w2 b2)
+    (hne1 : b1 ≠ []) (hne2 : b2 ≠ []) (ht1 : b1.getLast hne1 ≠ 0) (ht2 : b2.getLast hne2 ≠ 0)
+    (ha : val w1 a1 = val w2 a2) (hb : val w1 b1 = val w2 b2) :
+    val w1 (zzMod w1 a1 b1) = val w2 (zzMod w2 a2 b2) := by
+  rw [(zzMod_spec w1 a1 b1 ha1 hb1 hne1 ht1).1, (zzMod_spec w2 a2 b2 ha2 hb2 hne2 ht2).1, ha, hb]
+
+open Bee2V.C05 in
+/-- `zzAddMod`, regular edition on one word size versus fast edition on another: same residue
+(word size AND `BUILD_FAST` at once). -/
+theorem zzAddMod_config_independent (w1 w2 : Nat) (a1 b1 m1 a2 b2 m2 : List Nat)
+    (ha1 : Wf w1 a1) (hb1 : Wf w1 b1) (hm1 : Wf w1 m1) (ha2 : Wf w2 a2) (hb2 : Wf w2 b2) (hm2 : Wf w2 m2)
+    (hl1 : a1.length = b1.length) (hl1' : a1.length = m1.length)
+    (hl2 : a2.length = b2.length) (hl2' : a2.length = m2.length)
+    (hA1 : val w1 a1 < val w1 m1) (hB1 : val w1 b1 < val w1 m1)
+    (hA2 : val w2 a2 < val w2 m2) (hB2 : val w2 b2 < val w2 m2)
+    (ha : val w1 a1 = val w2 a2) (hb : val w1 b1 = val w2 b2) (hm : val w1 m1 = val w2 m2) :
+    val w1 (zzAddMod_safe w1 a1 b1 m1) = val w2 (zzAddMod_fast w2 a2 b2 m2) := by
+  rw [(zzAddMod_safe_spec w1 a1 b1 m1 ha1 hb1 hm1 hl1 hl1' hA1 hB1).1,
+    (zzAddMod_fast_spec w2 a2 b2 m2 ha2 hb2 hm2 hl2 hl2' hA2 hB2).1, ha, hb, hm]
 
 end Bee2V.C19
